@@ -9,6 +9,12 @@ structure Session where
   active : Bool := false
   visited : List Val := []
   must : List Val := []      -- keys present since the traversal began and never cleared
+  fe : FEState := {}         -- LTable.ForEach in progress (Model.feStep / feEnd)
+  ipLast : Int := 0          -- ipairs in progress: the last index delivered
+  cur : OVal := none         -- the key the chain is at (the key returned by the previous `next`; nil at the start)
+  kfPast : Bool := false     -- a `next` of this traversal was called while the array part reached MaxArrayIndex (finding
+                             -- C09-array-past-maxarrayindex); a Remove may have shrunk it again before the traversal ends
+  kfShrink : Bool := false   -- a `next` of this traversal was called with an integer key beyond the (shrunk) array part
 
 structure Entry where
   t : Tbl := {}
@@ -34,6 +40,11 @@ def sesStore (e : Entry) (k : Val) (v : OVal) : Session :=
 def store (e : Entry) (t' : Tbl) (k : Val) (v : OVal) : Entry :=
   { t := t', s := e.s.set k v, ses := sesStore e k v }
 
+/-- spec bookkeeping for a list helper (Append/Insert/Remove) during an active traversal: only the keys that are
+    still present afterwards stay in `must` -/
+def sesAfter (ses : Session) (s' : STbl) : Session :=
+  if ses.active then { ses with must := ses.must.filter (fun k => (s'.m k).isSome) } else ses
+
 def specGet (e : Entry) (k : Val) (impl : List String) : Option String :=
   let want := (e.s.m k).show
   if impl = [want] then none else some ("get " ++ k.show ++ " spec=" ++ want)
@@ -45,6 +56,24 @@ def handle (st : St) (ws : List String) : St × Verdict :=
     match id.toNat?, acap.toNat?, mai.toNat? with
     | some id, some a, some mai => (assocSet st id { t := { alloc := a ≠ 0, mai := mai } }, ok)
     | _, _, _ => (st, { model := some "bad-op" })
+  | ["numkey", bits, mai] =>
+    -- key normalisation: the canonical key of the float64 with this bit pattern and its routing (array part / hash part);
+    -- impl = `nan` (Lua-level store raised) | `arr <canonical token>` | `hash <canonical token>`
+    match bits.toNat?, mai.toNat? with
+    | some b, some mai =>
+      let mres := match numKey b with
+        | none => "nan"
+        | some k => (if goIsArrayKey mai b then "arr " else "hash ") ++ k.show
+      -- Spec (property text): NaN is rejected; otherwise the key is the number's value — an integral value is its integer
+      let sp : Option String := match impl with
+        | ["nan"] => if isNaNBits b then none else some "a number that is not NaN was rejected as a key"
+        | [_, tok] => if isNaNBits b then some "a NaN key was accepted by the Lua-level store"
+                      else match f64int? b with
+                        | some z => if tok = (Val.int z).show then none else some ("integral number key not canonical: " ++ tok)
+                        | none => if tok = (Val.flt b).show then none else some ("non-integral number key changed: " ++ tok)
+        | _ => some "numkey malformed"
+      (st, { model := cmpModel mres impl, spec := sp })
+    | _, _ => (st, { model := some "bad-op" })
   | "note" :: _ => (st, ok)   -- free text for the replay file (e.g. the Lua source of a constructor); no effect
   | op :: id :: rest =>
     match id.toNat? >>= fun id => (assocGet st id).map (fun e => (id, e)) with
@@ -96,22 +125,110 @@ def handle (st : St) (ws : List String) : St × Verdict :=
         put (if v.isNone then e else store e t' k v) ok
       | "insert", [some (some (.int i)), some v] =>
         let t' := insert e.t i v
-        -- rebuild the spec map of the integer keys from the model (C18 checks the list semantics)
-        let s' : STbl := (List.range (t'.array.length + 1)).foldl
+        let n := e.t.array.length
+        -- Spec: `table.insert` on the abstract map over the window 1..len(array) (Spec.SMap.insertAt); at the
+        -- MaxArrayIndex boundary (finding C09-array-past-maxarrayindex) the spec map is rebuilt from the model
+        let s' : STbl :=
+          if n + 1 < e.t.mai then
+            { m := e.s.m.insertAt n i v,
+              dom := ((List.range (n + 1)).map (fun (j : Nat) => Val.int ((j : Int) + 1)) ++ [Val.int i]).foldl
+                       (fun d k => if d.contains k then d else d ++ [k]) e.s.dom }
+          else
+            let s1 : STbl := (List.range (t'.array.length + 1)).foldl
               (fun s (j : Nat) => s.set (.int ((j : Int) + 1)) (rawGet t' (.int ((j : Int) + 1)))) e.s
-        let s' := if i ≤ 0 ∨ i > e.t.array.length then s'.set (.int i) (rawGet t' (.int i)) else s'
-        put { e with t := t', s := s' } ok
+            if i ≤ 0 ∨ i > n then s1.set (.int i) (rawGet t' (.int i)) else s1
+        put { e with t := t', s := s', ses := sesAfter e.ses s' } ok
       | "remove", [some (some (.int i))] =>
         let (t', v) := remove e.t i
-        let s' : STbl := (List.range (e.t.array.length + 1)).foldl
+        let n := e.t.array.length
+        let p : Int := if i < 1 then (n : Int) else i
+        let noop : Bool := n = 0 ∨ i > n
+        let s' : STbl :=
+          if n < e.t.mai then
+            if noop then e.s else
+            { m := e.s.m.removeAt n p,
+              dom := ((List.range n).map (fun (j : Nat) => Val.int ((j : Int) + 1))).foldl
+                       (fun d k => if d.contains k then d else d ++ [k]) e.s.dom }
+          else
+            (List.range (n + 1)).foldl
               (fun s (j : Nat) => s.set (.int ((j : Int) + 1)) (rawGet t' (.int ((j : Int) + 1)))) e.s
-        put { e with t := t', s := s' } { model := cmpModel v.show impl }
+        let want : OVal := if noop then none else e.s.m (.int p)
+        put { e with t := t', s := s', ses := sesAfter e.ses s' }
+          { model := cmpModel v.show impl,
+            spec := if impl = [want.show] then none else some ("remove returned " ++ " ".intercalate impl ++ " spec=" ++ want.show) }
+      | "ipairs", [] =>
+        -- impl: the pairs delivered by `for i, v in ipairs(t)`, flattened `n i1 v1 … in vn`
+        let fuel := e.t.array.length + e.t.dict.length + 2
+        let mres := match ipairsRun e.t fuel 0 with
+          | some l => " ".intercalate (toString l.length :: l.foldr (fun p acc => (Val.int p.1).show :: p.2.show :: acc) [])
+          | none => "ipairs-did-not-terminate"
+        -- spec: exactly 1..n with the map's values, n+1 absent
+        let rec chk (ws : List String) (j : Nat) (fuel : Nat) : Option String :=
+          match fuel, ws with
+          | _, [] => if (e.s.m (.int ((j : Int) + 1))).isNone then none
+                     else some ("ipairs stopped before the first nil at " ++ toString (j + 1))
+          | 0, _ => some "ipairs malformed"
+          | f + 1, i :: v :: r =>
+            if i ≠ (Val.int ((j : Int) + 1)).show then some ("ipairs index out of order at " ++ toString (j + 1))
+            else if v = "nil" ∨ (e.s.m (.int ((j : Int) + 1))).show ≠ v then some ("ipairs wrong value at " ++ toString (j + 1))
+            else chk r (j + 1) f
+          | _, _ => some "ipairs malformed"
+        put e { model := cmpModel mres impl, spec := chk (impl.drop 1) 0 impl.length }
       | "trbegin", [] =>
-        put { e with ses := { active := true, visited := [], must := e.s.support } } ok
+        put { e with ses := { active := true, visited := [], must := e.s.support, cur := none, kfPast := false, kfShrink := false, fe := feBegin e.t, ipLast := 0 } } ok
+      | "fevisit", [] =>
+        -- one callback of LTable.ForEach / LState.ForEach during a traversal session; impl = the pair delivered.
+        -- Model: is this delivery admissible for Go's range over the live array part / maps (Model.feStep)?
+        -- Spec: the key is present with exactly this value now and has not been delivered before.
+        match impl.map parseVal with
+        | [some (some k'), some (some v')] =>
+          let (fe', mv) : FEState × Option String := match feStep e.t e.ses.fe k' v' with
+            | some s' => (s', none)
+            | none => (e.ses.fe, some ("ForEach: no admissible delivery; the table holds " ++ (rawGet e.t k').show ++ " under " ++ k'.show))
+          let sp := if !e.ses.active then none
+                    else if e.ses.visited.contains k' then some ("traversal repeated " ++ k'.show)
+                    else if e.s.m k' ≠ some v' then some ("traversal gave stale pair for " ++ k'.show)
+                    else none
+          put { e with ses := { e.ses with fe := fe', visited := e.ses.visited ++ [k'] } } { model := mv, spec := sp }
+        | _ => put e { model := some "fevisit malformed" }
+      | "feend", [] =>
+        let mv := if feEnd e.t e.ses.fe then none else some "ForEach: must not end yet (a live entry has not been delivered)"
+        let missing := e.ses.must.filter (fun k => !e.ses.visited.contains k)
+        let sp := if !e.ses.active ∨ missing.isEmpty then none
+                  else some ("traversal missed " ++ " ".intercalate (missing.map Val.show))
+        put { e with ses := { e.ses with active := false } } { model := mv, spec := sp }
+      | "ipvisit", [] =>
+        -- one iteration of `for i, v in ipairs(t)` whose body may store into t; Model: ipairsaux on the table as it is now
+        let mres := match ipairsAux e.t e.ses.ipLast with
+          | some (i, v) => (Val.int i).show ++ " " ++ v.show
+          | none => "end"
+        let (ip', sp) : Int × Option String := match impl.map parseVal with
+          | [some (some (.int i)), some (some v')] =>
+            (i, if i ≠ e.ses.ipLast + 1 then some ("ipairs index out of order: " ++ toString i)
+                else if e.s.m (.int i) ≠ some v' then some ("ipairs gave stale value at " ++ toString i) else none)
+          | _ => (e.ses.ipLast, some "ipvisit malformed")
+        put { e with ses := { e.ses with ipLast := ip' } } { model := cmpModel mres impl, spec := sp }
+      | "ipend", [] =>
+        let mres := match ipairsAux e.t e.ses.ipLast with
+          | some (i, v) => (Val.int i).show ++ " " ++ v.show
+          | none => "end"
+        let sp := if (e.s.m (.int (e.ses.ipLast + 1))).isNone then none
+                  else some ("ipairs stopped before the first nil at " ++ toString (e.ses.ipLast + 1))
+        put e { model := cmpModel mres impl, spec := sp }
       | "next", [some k] =>
-        let mres := match next e.t k with
+        let mres := match nextFixed e.t k with    -- /repo (fix: Next after a shrunk array part): `nextFixed`; `next` is the old code
           | .ok r => showKV r
           | .error err => err.show
+        -- FIXED finding C09-next-after-array-shrink (kept as a plain complaint: it is reported again if it returns): `Next(k)` with an integer k beyond the array part (a list helper
+        -- shrank it during this traversal) skips keys[0]
+        let shrunk : Bool := match k with
+          | some (.int i) => e.ses.active ∧ 0 < i ∧ i < (e.t.mai : Int) ∧ (e.t.array.length : Int) < i
+          | _ => false
+        -- a `next` whose argument is not the key returned by the previous call is not part of a chain from nil
+        -- (a shrunk scripted case): the traversal claims end there
+        let e := { e with ses := { e.ses with kfShrink := e.ses.kfShrink || shrunk,
+                                              kfPast := e.ses.kfPast || (e.ses.active && decide (e.t.array.length ≥ e.t.mai)),
+                                              active := e.ses.active && decide (k = e.ses.cur) } }
         -- spec: the pair returned must be a present key with its current value, not yet visited;
         -- at the end every key that stayed present must have been visited
         let (ses', sp) : Session × Option String :=
@@ -120,13 +237,18 @@ def handle (st : St) (ws : List String) : St × Verdict :=
           | [some none, some none] =>
             let missing := e.ses.must.filter (fun k => !e.ses.visited.contains k)
             ({ e.ses with active := false },
-              if missing.isEmpty then none else some ("traversal missed " ++ " ".intercalate (missing.map Val.show)))
+              if missing.isEmpty then none
+              else if e.ses.kfPast then
+                some ("KF:C09-array-past-maxarrayindex traversal missed " ++ " ".intercalate (missing.map Val.show))
+              else some ("traversal missed " ++ " ".intercalate (missing.map Val.show)))
           | [some (some k'), some v'] =>
             let sp := if e.ses.visited.contains k' then some ("traversal repeated " ++ k'.show)
                       else if e.s.m k' ≠ v' ∨ v'.isNone then some ("traversal gave stale pair for " ++ k'.show)
                       else none
-            ({ e.ses with visited := e.ses.visited ++ [k'] }, sp)
+            ({ e.ses with visited := e.ses.visited ++ [k'], cur := some k' }, sp)
           | _ => (e.ses, some "next malformed")
+        -- any complaint about a traversal during which the array part had reached MaxArrayIndex belongs to that finding
+        let sp := if e.ses.kfPast then sp.map (fun r => if r.startsWith "KF:" then r else "KF:C09-array-past-maxarrayindex " ++ r) else sp
         put { e with ses := ses' } { model := cmpModel mres impl, spec := sp }
       | "foreach", [] =>
         let mres := showPairsSorted (forEach e.t)
